@@ -80,6 +80,20 @@ func (g *Gen) GenFunc(key string) (res *FnResult) {
 		for _, rq := range con.Requires {
 			c.assume(st, env.Eval(rq.Expr).Term)
 		}
+		for _, gd := range con.Ghosts {
+			if gd.Init == nil {
+				continue
+			}
+			// a ghost with an initialiser is a definition local to this verification; callers assume the
+			// requires/ensures for their own value of the ghost, so those clauses must not mention it
+			for _, cl := range append(append([]Clause{}, con.Requires...), con.Ensures...) {
+				if mentionsIdent(cl.Expr, gd.Name) {
+					res.Err = fmt.Errorf("contract error: ghost %s has an initialiser and is mentioned in a requires/ensures clause (%s)", gd.Name, cl.Text)
+					return
+				}
+			}
+			c.emit(fmt.Sprintf("(assert (= %s %s))", g.UF("ghost_"+gd.Name, nil, SInt), env.Eval(gd.Init).Term))
+		}
 	}
 	for _, li := range findLoops(fn) {
 		tok := ""
@@ -332,3 +346,46 @@ func (g *Gen) ObligationSMT(header string, r *FnResult, o *Obligation) string {
 }
 
 var _ = types.Typ
+
+
+// mentionsIdent: the spec expression mentions the identifier name.
+func mentionsIdent(e SExpr, name string) bool {
+	found := false
+	var walk func(e SExpr)
+	walk = func(e SExpr) {
+		switch e := e.(type) {
+		case SIdent:
+			if e.Name == name {
+				found = true
+			}
+		case SUnary:
+			walk(e.X)
+		case SBinary:
+			walk(e.X)
+			walk(e.Y)
+		case SSelect:
+			walk(e.X)
+		case SIndex:
+			walk(e.X)
+			walk(e.I)
+		case SSliceE:
+			walk(e.X)
+			if e.Lo != nil {
+				walk(e.Lo)
+			}
+			if e.Hi != nil {
+				walk(e.Hi)
+			}
+		case SCall:
+			for _, a := range e.Args {
+				walk(a)
+			}
+		case STypeAssert:
+			walk(e.X)
+		case SQuant:
+			walk(e.Body)
+		}
+	}
+	walk(e)
+	return found
+}
